@@ -894,8 +894,12 @@ func (x *Exec) resetPath() {
 	x.timerSeq = 0
 	x.locks = map[Ptr]*lockState{}
 	x.wgs = map[Ptr]*int64{}
-	x.onces = map[Ptr]bool{}
-	x.smaps = map[Ptr]*Map{}
+	if x.onces == nil {
+		x.onces = map[Ptr]bool{}
+	}
+	if x.smaps == nil {
+		x.smaps = map[Ptr]*Map{}
+	}
 	x.ptrAddr = map[Ptr]uint64{}
 	x.addrPtr = map[uint64]Ptr{}
 	x.ptrSeq = 0
